@@ -11,6 +11,20 @@ from contracts.common import AVP_ELEM, cat, slen, cat_len, enc_of, any_avp_shape
 from contracts.l5_message import key_loop_inv
 
 
+def _abstract_grouped(ctx, ns):
+    """use the summaries only for abstract containers; concrete member lists run the real body (the
+    mandatory-member check needs the concrete members)"""
+    from pyvc.values import SObj, SSeq
+    from pyvc.seqs import SymDict
+    g = ns["self"]
+    if not isinstance(g, SObj):
+        return False
+    idk = g.idict.known if isinstance(g.idict, SymDict) else (g.idict or {})
+    arg = ns.get("avps", ns.get("avp"))
+    return isinstance(g.idict, SymDict) or isinstance(idk.get("_avps"), SSeq) or isinstance(arg, SSeq) \
+        or (isinstance(arg, SObj) and arg.ref is not None)
+
+
 def grouped_shape(cls=None):
     return T.Obj(cls or _G, slots={"_flags": T.Bytes(1), "_data": T.Bytes(), "_vendor_id": T.NoneS,
                                    "_padding": T.NoneS},
@@ -25,6 +39,7 @@ class _GAppend:
     args = {"self": grouped_shape(), "avp": T.OneOf(any_avp_shape(), T.Int(), T.NoneS)}
     loops = {0: Loop(vars={"index": T.Int()}, inv=key_loop_inv)}
     at_calls = True
+    accepts = _abstract_grouped
     modifies = {"self._avps": T.Seq(AVP_ELEM), "self._data": T.Bytes()}
     open_dicts = ("self",)
 
@@ -74,6 +89,7 @@ class _GExtend:
                      inv=gextend_inv)}
     setup_spec = g_snapshot
     at_calls = True
+    accepts = _abstract_grouped
     modifies = {"self._avps": T.Seq(AVP_ELEM), "self._data": T.Bytes()}
     open_dicts = ("self",)
 
